@@ -927,6 +927,8 @@ def build_checks(ci, case, wr, tr, res):
             if cc is None or sc is None:
                 continue
             checks.append((tag + '/time_' + nm, None, 'check_time %s %s %s' % (gq(ad['V'][nm]), qc(cc.split(',')[0]), qc(sc.split(',')[0]))))
+            if sp_:
+                res.count('symbolic_omega_time_checks')
         # --- matrices and solutions through the model
         if 'error' in sd:
             res.count('s_route_error')
@@ -957,6 +959,8 @@ def build_checks(ci, case, wr, tr, res):
             raws.append(r)
         if not ok:
             continue
+        if sp_:
+            res.count('symbolic_omega_matrix_points')
         es = 'es_%d_%s' % (ci, re.sub(r'\W', '_', (sp_['sym'] + '_at_' if sp_ else '') + wkey))
         defn = 'Definition %s : list rawc := [%s].' % (es, ';\n  '.join(raws))
         kc = SKINDS[sd['kind']]
